@@ -415,6 +415,7 @@ type FuncContract struct {
 	Results   []string
 	Props     []string
 	Requires  []*Clause
+	Stable    []*Clause
 	Ensures   []*Clause
 	Modifies  []*Clause
 	LoopInv   map[int][]*Clause
@@ -501,6 +502,7 @@ type ContractSet struct {
 	Axioms  []*Axiom
 	Lemmas  []*Lemma
 	Guarded []*Guarded
+	Opaque  map[string]bool // types whose uncontracted methods are "receiver non-nil, havoc"
 	SpecOrder []string
 	Files   []string
 }
@@ -512,8 +514,8 @@ func NewContractSet() *ContractSet {
 	}
 }
 
-var topKeywords = map[string]bool{"func": true, "extern": true, "trusted": true, "spec": true, "ghost": true, "axiom": true, "lemma": true, "const": true, "guarded": true, "pred": true}
-var clauseKeywords = map[string]bool{"requires": true, "ensures": true, "modifies": true, "loop": true, "safety": true, "pure": true, "noeffect": true, "for": true, "bounded": true, "havocall": true, "noreturn": true, "uses": true, "option": true, "calls": true, "at": true, "ghostset": true}
+var topKeywords = map[string]bool{"func": true, "extern": true, "trusted": true, "spec": true, "ghost": true, "axiom": true, "lemma": true, "const": true, "guarded": true, "pred": true, "opaque": true}
+var clauseKeywords = map[string]bool{"requires": true, "ensures": true, "modifies": true, "loop": true, "safety": true, "pure": true, "noeffect": true, "for": true, "bounded": true, "havocall": true, "noreturn": true, "uses": true, "option": true, "calls": true, "at": true, "ghostset": true, "stable": true}
 
 // ParseContractFile reads the //@ lines of a file. pkgPath is the import path
 // of the package the file belongs to ("" for shared spec files).
@@ -683,7 +685,7 @@ func (cs *ContractSet) ParseContractFile(path, pkgPath string) error {
 			}
 		case "bounded":
 			fmt.Sscanf(rest, "%d", &cur.Bound)
-		case "requires", "ensures":
+		case "requires", "ensures", "stable":
 			if cur == nil {
 				return fail(fmt.Errorf("%s outside a function block", first))
 			}
@@ -693,7 +695,14 @@ func (cs *ContractSet) ParseContractFile(path, pkgPath string) error {
 				return fail(err)
 			}
 			c := &Clause{Kind: first, Label: label, Src: src, Expr: e, File: path, Line: rl.line}
-			if first == "requires" {
+			if first == "stable" {
+				// stable e: a representation invariant every callee is ASSUMED to preserve; it is required at
+				// entry and assumed again after each call that havocs the whole heap
+				cur.Stable = append(cur.Stable, c)
+				rc := *c
+				rc.Kind = "requires"
+				cur.Requires = append(cur.Requires, &rc)
+			} else if first == "requires" {
 				cur.Requires = append(cur.Requires, c)
 			} else {
 				cur.Ensures = append(cur.Ensures, c)
@@ -841,6 +850,16 @@ func (cs *ContractSet) ParseContractFile(path, pkgPath string) error {
 				g.Props = append(g.Props, strings.Trim(parts[i], ","))
 			}
 			cs.Guarded = append(cs.Guarded, g)
+		case "opaque":
+			// opaque <pkg/path.Type>: methods of that type called without a contract of their own are
+			// treated as: receiver must not be nil, arbitrary results, every modelled location havoced
+			curLemma, cur = nil, nil
+			if cs.Opaque == nil {
+				cs.Opaque = map[string]bool{}
+			}
+			for _, t := range strings.Fields(rest) {
+				cs.Opaque[strings.Trim(t, ",")] = true
+			}
 		default:
 			return fail(fmt.Errorf("unknown directive %q", first))
 		}
